@@ -588,3 +588,5 @@ def run(report, repo):
   from sa.rules import c14  # pylint: disable=g-import-not-at-top
   # illegal mid-session packet types (table shared with C14-R1)
   report.guard(c14.r1_acks, report, repo)
+  from sa.rules import extra4 as _x4  # pylint: disable=g-import-not-at-top
+  report.guard(_x4.errors_do_not_reformat, report, repo, 'C15-R9')
